@@ -29,6 +29,7 @@ from hypothesis import strategies as st
 from .. import netgen, spec as S
 from ..outcome import exc_bucket, fail, inconclusive, passed
 from .c01 import balance_check
+from ..refs import c02_laws as LAW
 
 ID = 'C09'
 LEVEL = 'exploration'
@@ -52,7 +53,7 @@ RULE = ('sim cases (1 in 4): netgen networks (2-8 junctions, thorough to 14; spa
         'in either direction, statuses closed/open/active, 0-4 rounds of 1-3 status changes; via csr (direct call of the '
         'C++ search, rows in sorted or rotated order) or via wn (simulator-maintained adjacency of a pipes/valves model). '
         'Enumerated part: all multigraphs on 1 source + 2 junctions with 0-2 links per pair and every open/closed pattern '
-        '(via wn and csr, followed by two rounds of changes) and 43 hand-built simulation scenarios (parallel pair closed '
+        '(via wn and csr, followed by two rounds of changes) and 45 hand-built simulation scenarios (parallel pair closed '
         'one by one and reopened, dead end cut and reconnected off-grid, every junction cut off, PRV closed/active, pump '
         'outage, PRV and CV inside the cut-off part, draining tank as last source, the same paused, booster / check '
         'valve / PSV pointing out of a dead end and a dead end behind an empty tank at low or negative heads). '
@@ -150,6 +151,8 @@ def user_cut_sets(spec):
 # ===================================================================================================== sim mode
 def sim_tags(spec):
     tags = ['mode:sim'] + netgen.features(spec)
+    if spec.get('shared_names'):
+        tags.append('names_shared_between_nodes_and_links')
     pairs = {}
     for name, a, b, kind, l in _links(spec):
         pairs.setdefault(tuple(sorted((a, b))), []).append((name, a, b, kind, l))
@@ -227,6 +230,8 @@ def judge_rows(spec, run, tags):
     multi = [v for v in pairs.values() if len(v) > 1]
     stats = {'iso_rows': 0, 'reach_rows': 0, 'reconnect': 0, 'cut_again': 0, 'iso_junction_rows': 0}
     prev_cut = None
+    reconnected_once = False
+    jset = set(j['name'] for j in spec['junctions'])
     dd = spec['opts']['demand_model'] == 'DD'
     for k, t in enumerate(run.times):
         closed = set(n for n in stt if stt[n][k] == 0)
@@ -289,10 +294,33 @@ def judge_rows(spec, run, tags):
             if prev_cut - cut:
                 stats['reconnect'] += 1
                 tags.add('row:reconnected')
+                reconnected_once = True
             if cut - prev_cut:
                 stats['cut_again'] += 1
                 tags.add('row:cut_during_run')
         prev_cut = cut
+        if reconnected_once:
+            # 'reconnecting an isolated part restores normal results': from the first reconnection on, every plain pipe
+            # that is reported open between two nodes with a path to a source carries the flow that its head loss says
+            # (Hazen-Williams + minor loss; law and tolerances of refs/c02_laws.py)
+            for name, a, b, kind, l in links:
+                if kind != 'pipe' or l.get('cv') or stt[name][k] == 0:
+                    continue
+                if (a in jset and a not in reach) or (b in jset and b not in reach):
+                    continue
+                K_, m_ = LAW.pipe_K(l['len'], l['diam'], l['C']), LAW.minor_r(l.get('minor', 0.0), l['diam'])
+                dh = float(head[a][k]) - float(head[b][k])
+                qk = float(q[name][k])
+                loss = LAW.pipe_loss(qk, K_, m_)
+                # coarse on purpose (C02 owns the exact law incl. the smoothing of small flows): 5 cm + 5 %
+                tol = 0.05 + 0.05 * max(abs(dh), abs(loss))
+                if not abs(dh - loss) <= tol:
+                    tags.add('row:law_checked_after_reconnection')
+                    return (('after_reconnection/open_pipe_off_its_law',
+                             't=%s pipe %s (%s -> %s) is reported open between connected nodes with heads %r and %r (difference '
+                             '%.6g m) but carries %r m3/s, whose head loss is %.6g m; a part of the network had been '
+                             'reconnected before' % (t, name, a, b, head[a][k], head[b][k], dh, q[name][k], loss)), stats)
+            tags.add('row:law_checked_after_reconnection')
     return None, stats
 
 
@@ -656,6 +684,8 @@ def sim_case(draw, tier='quick'):
         toggle(ls[draw(st.integers(0, len(ls) - 1))][0], draw(st.integers(1, 3)))
     spec['controls'] = [{'kind': 'time', 'at': t, 'link': ln, 'attr': 'status', 'value': v}
                         for (ln, t), v in sorted(sched.items(), key=lambda kv: (kv[0][1], kv[0][0]))]
+    if draw(st.integers(0, 3)) == 0:
+        S.share_names(spec, draw(st.integers(0, 50)))      # junction '3' and pipe '3' coexist (EPANET-style numbering)
     case = {'mode': 'sim', 'net': spec}
     if nsteps >= 2 and draw(st.integers(0, 4)) == 0:
         case['pause'] = hyd * draw(st.integers(1, nsteps - 1))
@@ -1116,6 +1146,19 @@ def hand_built():
                 s['valves'] = [{'name': 'V2', 'a': 'J1', 'b': 'J2', 'type': vt, 'diam': 0.3, 'minor': 0.0,
                                 'setting': {'TCV': 5.0, 'FCV': 0.003, 'PRV': 20.0}[vt], 'status': 'ACTIVE'}]
                 out.append(s)
+    # names shared between a junction and a link (EPANET numbers nodes and links separately): a looped zone is cut off
+    # and reconnected while a dead end behind a closed stub stays cut off; every element of the zone must come back
+    for swap in (False, True):
+        s = _base(_opts(5 * 3600, 3600))
+        s['reservoirs'] = [{'name': 'R1', 'head': 60.0, 'pat': None}]
+        s['junctions'] = [_junction('1', 10.0), _junction('2', 8.0), _junction('3', 6.0), _junction('7', 5.0), _junction('8', 4.0)]
+        s['pipes'] = [_pipe('1', 'R1', '1'), _pipe('2', '1', '2'), _pipe('7', '2', '3'), _pipe('8', '3', '1' if swap else '2'),
+                      _pipe('3', '2', '7', 'CLOSED'), _pipe('4', '7', '8')]
+        if swap:
+            s['pipes'][2], s['pipes'][3] = s['pipes'][3], s['pipes'][2]
+        s['controls'] = [_ctl(3600, '2', 'CLOSED'), _ctl(3 * 3600, '2', 'OPEN')]
+        s['shared_names'] = True
+        out.append(s)
     return out
 
 
